@@ -439,6 +439,10 @@ func newSpannerProber(ctx context.Context, opt ProberOptions, clientOpts ...opti
 }
 
 func backoff(baseDelay, maxDelay time.Duration, retries int) time.Duration {
+	if baseDelay <= 0 {
+		// A non-positive delay never grows: do not loop over the retries (the count may be huge).
+		return baseDelay
+	}
 	backoff, max := float64(baseDelay), float64(maxDelay)
 	for backoff < max && retries > 0 {
 		backoff = backoff * 1.5
